@@ -23,6 +23,7 @@ try:
     from props import _guards
 except ImportError:
     _guards = None
+from props import _predtable
 
 
 def need(F, path):
@@ -133,3 +134,4 @@ def run(ctx, rep):
         _errdrop.run(F, rep, ctx)
     if _guards is not None:
         _guards.run(F, rep, ctx)
+    _predtable.run(F, rep, ctx)
